@@ -40,7 +40,8 @@ def constants_and_trace(events, dev=()):
             files = list(range(1, len(e["files"]) + 1))
         elif ev == "parse":
             f = e["file"]
-            kind[f] = "valid" if (e["ok"] and not e["reported"]) else ("reports" if e["reported"] else "raises")
+            # raised in the end -> "raises" (whatever was printed before); registered although an error was printed -> "reports"
+            kind[f] = "raises" if not e["ok"] else ("reports" if e["reported"] else "valid")
             lines.append({"ev": "parse", "file": f, "ok": bool(e["ok"])})
         elif ev == "startcorrelate":
             for u in e["units"]:
@@ -96,9 +97,52 @@ def constants_and_trace(events, dev=()):
         "PFile": _fn({d["id"]: d["file"] for d in pages.values()}),
         "Dev": frozenset(dev),
     }
+    registered = {ln["file"] for ln in lines if ln["ev"] == "parse" and ln["ok"]}
     notes = {"files": len(files), "units": len(units), "entities": len(ents), "pages": len(pages), "events": len(lines),
-             "kinds": sorted(set(kind.values()))}
+             "kinds": sorted(set(kind.values())),
+             "_info": {"registered": registered, "unit_file": {u: d["file"] for u, d in units.items()},
+                       "ent_file": {k: d["file"] for k, d in ents.items()}, "page_file": {d["id"]: d["file"] for d in pages.values()},
+                       "page_path": {d["id"]: p for p, d in pages.items()}}}
     return consts, lines, notes
+
+
+def classify(result):
+    """Which clause rejected the run: (owner property, text).  Owner None = ordering detail of the as-built model."""
+    info = result["notes"]["_info"]
+    ev = result.get("next_event")
+    reg = info["registered"]
+    if result.get("violated") and not str(result["violated"]).startswith("Postcondition"):
+        return None, f"invariant {result['violated']} of Pipeline violated by the recorded run"
+    if ev is None:
+        return None, "trace not accepted"
+    k = ev["ev"]
+    if k == "name":
+        f = info["ent_file"].get(ev["e"])
+        if not ev["first"]:
+            return "C10", f"get_name answered differently for an entity it had already named (entity {ev['e']})"
+        if f and f not in reg:
+            return "C20", f"an entity of file {f}, which was not registered, was given a page name (n={ev['n']})"
+        return "C10", f"page name number {ev['n']} handed out for entity {ev['e']} is not first come, first served per (directory, stem)"
+    if k == "page":
+        f = info["page_file"].get(ev["page"])
+        path = info["page_path"].get(ev["page"])
+        if f and f not in reg:
+            return "C20", f"page {path} written for an entity of file {f}, which was not registered"
+        if not ev["inwrite"]:
+            return "C12", f"page {path} written outside Documentation.writeout"
+        return "C10", f"page {path} written twice, or before the output directory was wiped"
+    if k in ("correlate", "prune"):
+        f = info["unit_file"].get(ev["unit"])
+        if f and f not in reg:
+            return "C20", f"unit {ev['unit']} of file {f}, which was not registered, was {k}d"
+        return None, f"unit {ev['unit']} {k}d out of the modelled order (dependency level, then rank)"
+    if k == "parse":
+        return "C12", f"file {ev['file']} parsed out of sorted order (or twice)"
+    if k == "wipe":
+        return "C19", "rmtree inside writeout on a path that is not the output directory"
+    if k == "end":
+        return "C12", "the HTML files in the output directory are not exactly the pages this run wrote"
+    return None, f"stage event {k} out of order"
 
 
 def validate(events, dev=(), timeout=600):
@@ -116,7 +160,22 @@ def validate(events, dev=(), timeout=600):
         out = {"accepted": accepted, "consumed": consumed, "events": len(lines), "violated": res.violated,
                "next_event": lines[consumed] if consumed < len(lines) else None, "notes": notes}
         if not accepted:
+            out["owner"], out["why"] = classify(out)
+        notes.pop("_info", None)
+        if not accepted:
             out["tail"] = res.output[-600:]
         return out
     finally:
         shutil.rmtree(d, ignore_errors=True)
+
+
+def record(files: dict, meta: dict | None = None, extra_dirs: dict | None = None):
+    """Build a project end to end in a scratch directory with the whole-run recorder on; returns (ok, events, log)."""
+    from . import pipetrace, site, fordrun
+    with fordrun.tempdir() as d:
+        fordrun.write_files(os.path.join(d, "src"), files)
+        for sub, fs in (extra_dirs or {}).items():
+            fordrun.write_files(os.path.join(d, sub), fs)
+        with pipetrace.recording() as ev:
+            ok, out, err = site.run_inproc(d, dict({"search": False}, **(meta or {})))
+        return ok, list(ev), (out or "")[-400:] + (f" {type(err).__name__}: {err}" if err else "")
